@@ -438,8 +438,8 @@ func Run(r *vk.Run) {
 	}
 	r.Set("exhaustive_permutation_schedules", len(jobs))
 	// (2) seeded mixed-ingress schedules
-	nChains := r.N(12, 120)
-	per := r.N(25, 160)
+	nChains := r.N(40, 400)
+	per := r.N(60, 250)
 	for c := 0; c < nChains; c++ {
 		n := 5 + rng.Intn(8)
 		if !r.Quick() {
@@ -457,7 +457,7 @@ func Run(r *vk.Run) {
 		}
 	}
 	// (3) trigger region: repeated tx lists
-	nRep := r.N(6, 40)
+	nRep := r.N(10, 80)
 	for c := 0; c < nRep; c++ {
 		shape := randShape(rng, 5+rng.Intn(6), true)
 		p, err := world.ProduceChain(ctx, buildSpec(shape, fmt.Sprintf("r%d", c)), keys)
